@@ -139,3 +139,20 @@ func (r *relayTable) DeleteByPeer(peer identity.AgentID) int {
 	}
 	return n
 }
+
+// PopByPeer removes every entry where either the upstream or downstream peer
+// matches and returns the removed entries, so that the caller can tell the
+// surviving side of each relayed stream that it is gone.
+func (r *relayTable) PopByPeer(peer identity.AgentID) []*relayEntry {
+	r.mu.Lock()
+	defer r.mu.Unlock()
+	var removed []*relayEntry
+	for id, e := range r.byUpstream {
+		if e.UpstreamPeer == peer || e.DownstreamPeer == peer {
+			delete(r.byUpstream, id)
+			delete(r.byDownstream, e.DownstreamID)
+			removed = append(removed, e)
+		}
+	}
+	return removed
+}
